@@ -764,7 +764,7 @@ func extFmod(fr *frame, a []value) value {
 		// a true fact about the real function, so that the uninterpreted symbol agrees
 		// with native evaluation wherever the latter was used
 		c := i.ctx
-		i.sess.AddFact(c.Eq(c.UF("fmod", smt.FP(64), i.term(a[0]), i.term(a[1])), c.FPConst64(r)))
+		i.sess.AddFact("fmod", c.Eq(c.UF("fmod", smt.FP(64), i.term(a[0]), i.term(a[1])), c.FPConst64(r)))
 		return r
 	}
 	return i.val(i.ctx.UF("fmod", smt.FP(64), i.term(a[0]), i.term(a[1])), types.Float64)
